@@ -218,6 +218,15 @@ def wait(ctx, role, tmo, exits, eintr):
             npolls2, nsl = len(w.polls), len(k.sleeps)
             r2 = p.wait(timeout)
             ctx.prove((r2 is r or ctx.eq(r2, r)) and len(w.polls) == npolls2 and len(k.sleeps) == nsl, "cached-second-call")
+            # ... and a negative timeout is still refused once a result is cached
+            neg = ctx.real("later_negative_timeout", -5, 0)
+            ctx.assume(neg < 0)
+            try:
+                p.wait(neg)
+                e3 = None
+            except ValueError as e:
+                e3 = e
+            ctx.prove(e3 is not None and len(w.polls) == npolls2, "negative-timeout-ValueError", detail="after a completed wait()")
         else:
             ctx.prove(timeout is not None, "timeout-only-with-a-timeout")
             if timeout is not None:
